@@ -702,6 +702,15 @@ Section Multi.
         split; [apply Hxtp_okT; exact Htp|]. apply (xid_inT (top_num tp)). rewrite <- xtp_numsT. apply in_map. exact Htp.
       - (* i_pos *) pose proof (i_pos _ _ _ _ _ _ Hinv). lia.
     Qed.
+    Lemma part_resultT :
+      Inv rest (P ++ T) chain' (p_known p pos known maxnum) (sz - 1) (xtp ++ xt) /\ C07Bytes.xincr 0 (x_entries p_x) /\
+      (exists front, P ++ T = front ++ startxref_text (with_part st p last) xpos /\ xpos <= blen front) /\
+      dict_get (dict_swap_remove p_t K_Prev) K_XRefStm = None /\ dict_has (dict_swap_remove p_t K_Prev) K_Encrypt = false.
+    Proof.
+      split; [exact inv_stepT|]. split; [exact px_sortedT|]. split; [exact PT_frontT|]. split.
+      - rewrite dict_get_swap_remove_other; [exact Hpt_stmT|exact pt_wfT|intro E; discriminate E].
+      - unfold dict_has. rewrite dict_get_swap_remove_other; [rewrite pt_encT; reflexivity|exact pt_wfT|intro E; discriminate E].
+    Qed.
   End PartT.
 
   Section PartS.
@@ -1066,6 +1075,229 @@ Section Multi.
         split; [apply Hxtp_okS; exact Htp|]. apply (xid_inS (top_num tp)). rewrite <- xtp_numsS. apply in_map. exact Htp.
       - (* i_pos *) pose proof (i_pos _ _ _ _ _ _ Hinv). lia.
     Qed.
+    Lemma part_resultS :
+      Inv rest (P ++ T) chain' (p_known p pos known maxnum) (sz - 1) (xtp ++ xt) /\ C07Bytes.xincr 0 (x_entries (xq_x0 en secs sz)) /\
+      (exists front, P ++ T = front ++ startxref_text (with_part st p last) xpos /\ xpos <= blen front) /\
+      dict_get (dict_swap_remove (xq_t a x en secs sz (p_prev prev)) K_Prev) K_XRefStm = None /\ dict_has (dict_swap_remove (xq_t a x en secs sz (p_prev prev)) K_Prev) K_Encrypt = false.
+    Proof.
+      split; [exact inv_stepS|]. split; [exact px_sortedS|]. split; [exact PT_frontS|]. split.
+      - rewrite dict_get_swap_remove_other; [exact Hpt_stmS|exact pt_wfS|intro E; discriminate E].
+      - unfold dict_has. rewrite dict_get_swap_remove_other; [rewrite pt_encS; reflexivity|exact pt_wfS|intro E; discriminate E].
+    Qed.
   End PartS.
   (* END-PARTS *)
+
+  (* ====================================================================================================
+     Part 3: all parts
+     ==================================================================================================== *)
+  Lemma part_defines_eq p : part_defines st p = mp_nums p.
+  Proof. unfold part_defines, part_containers. rewrite Hos. cbn [filter flat_map]. apply app_nil_r. Qed.
+
+  Lemma defines_eq : forall l, flat_map (part_defines st) l = flat_map mp_nums l.
+  Proof. induction l as [|p l IH]; [reflexivity|]. cbn [flat_map]. rewrite IH, part_defines_eq. reflexivity. Qed.
+
+  Lemma parts_inv : forall parts P chain known maxnum xt r,
+    parts_ok parts (blen P) (prev_N chain) known maxnum -> Inv parts P chain known maxnum xt ->
+    write_parts st a tops parts (blen P) (prev_N chain) known maxnum = Some r ->
+    blen (P ++ r) <= u32_max ->
+    exists chainF knownF maxF xtF, Inv [] (P ++ r) chainF knownF maxF xtF /\
+      (parts <> [] -> exists xs x0 t0 cr lastp front,
+         chainF = (xs, (x0, t0)) :: cr /\ C07Bytes.xincr 0 (x_entries x0) /\ last_part parts = Some lastp /\
+         P ++ r = front ++ startxref_text (with_part st lastp true) xs /\ xs <= blen front /\
+         match parts with p :: _ => p_xpos p (blen P) <= xs | [] => True end /\
+         dict_get (dict_swap_remove t0 K_Prev) K_XRefStm = None /\ dict_has (dict_swap_remove t0 K_Prev) K_Encrypt = false).
+  Proof.
+    induction parts as [|p rest IH]; intros P chain known maxnum xt r Hdom Hinv Hw HU.
+    - cbn [write_parts] in Hw. inversion Hw; subst r. rewrite app_nil_r. exists chain, known, maxnum, xt. split; [exact Hinv|]. intro K. contradiction.
+    - cbn [parts_ok] in Hdom. destruct Hdom as [Hok Hdom'].
+      rewrite (write_parts_step p rest) in Hw.
+      destruct (negb (nodup_N (p_hnums p) && forallb (fun no => mem_N (fst no) (flat_map (part_defines st) rest)) (mp_old p) &&
+                      Nat.eqb (length (p_olds p)) (length (mp_old p)))) eqn:C1; [discriminate Hw|].
+      apply negb_false_iff in C1. apply andb_true_iff in C1 as [C1 _]. apply andb_true_iff in C1 as [C1a C1b].
+      destruct (negb (existsb (p_here p (blen P)) (range_N 0 (N.to_nat (p_size p maxnum))))) eqn:C2; [discriminate Hw|].
+      apply negb_false_iff in C2. apply existsb_exists in C2 as [n0 [_ Hn0]].
+      set (T := p_text p (p_last rest) (blen P) (prev_N chain) known maxnum) in *.
+      destruct (write_parts st a tops rest (blen P + N.of_nat (length T)) (Some (p_xpos p (blen P))) (p_known p (blen P) known maxnum)
+                            (p_size p maxnum - 1)) as [r'|] eqn:Hr; [|discriminate Hw].
+      inversion Hw; subst r. clear Hw.
+      assert (Hhn : NoDup (p_hnums p)) by (apply nodup_N_spec; exact C1a).
+      assert (Hold : forall no, In no (mp_old p) -> In (fst no) (flat_map mp_nums rest)).
+      { intros no Hno. rewrite forallb_forall in C1b. specialize (C1b no Hno). apply mem_N_In in C1b. rewrite defines_eq in C1b. exact C1b. }
+      assert (Hex : exists n, p_here p (blen P) n = true) by (exists n0; exact Hn0).
+      assert (HU1 : blen (P ++ T) <= u32_max).
+      { unfold blen in *. rewrite !app_length in *. lia. }
+      assert (HTb : p_xpos p (blen P) <= blen (P ++ T)).
+      { unfold T, p_text, p_xpos, blen. rewrite !app_length. lia. }
+      assert (Hres : exists px pt xtp,
+                 Inv rest (P ++ T) ((p_xpos p (blen P), (px, pt)) :: chain) (p_known p (blen P) known maxnum) (p_size p maxnum - 1) (xtp ++ xt) /\
+                 C07Bytes.xincr 0 (x_entries px) /\
+                 (exists front, P ++ T = front ++ startxref_text (with_part st p (p_last rest)) (p_xpos p (blen P)) /\
+                                p_xpos p (blen P) <= blen front) /\
+                 dict_get (dict_swap_remove pt K_Prev) K_XRefStm = None /\ dict_has (dict_swap_remove pt K_Prev) K_Encrypt = false).
+      { destruct (mp_xref p) as [t|x] eqn:Hfmt.
+        - eexists _, _, _. exact (part_resultT p t P chain known maxnum rest xt Hfmt Hhn Hinv Hex Hold Hok HU1).
+        - eexists _, _, _. exact (part_resultS p x P chain known maxnum rest xt Hfmt Hhn Hinv Hex Hold Hok HU1). }
+      destruct Hres as [px [pt [xtp [Hinv' [Hsort [[front [F1 F2]] [Hstm Henc]]]]]]].
+      destruct rest as [|p2 rest2].
+      + cbn [write_parts] in Hr. inversion Hr; subst r'. rewrite app_nil_r.
+        eexists _, _, _, _. split; [exact Hinv'|]. intros _.
+        exists (p_xpos p (blen P)), px, pt, chain, p, front. split; [reflexivity|]. split; [exact Hsort|]. split; [reflexivity|].
+        split; [exact F1|]. split; [exact F2|]. split; [lia|]. split; [exact Hstm|exact Henc].
+      + assert (Epos : blen P + N.of_nat (length T) = blen (P ++ T)) by (unfold blen; rewrite app_length; lia).
+        rewrite Epos in Hr, Hdom'.
+        destruct (IH (P ++ T) ((p_xpos p (blen P), (px, pt)) :: chain) (p_known p (blen P) known maxnum) (p_size p maxnum - 1) (xtp ++ xt) r' Hdom' Hinv' Hr) as [cF [kF [mF [xF [I1 I2]]]]].
+        { rewrite <- app_assoc. exact HU. }
+        exists cF, kF, mF, xF. split; [rewrite app_assoc; exact I1|]. intros _.
+        destruct I2 as [xs [x0 [t0 [cr [lastp [front' [E1 [E2 [E3 [E4 [E5 [E6 E7]]]]]]]]]]]]; [discriminate|].
+        exists xs, x0, t0, cr, lastp, front'. split; [exact E1|]. split; [exact E2|]. split; [exact E3|].
+        split; [rewrite app_assoc; exact E4|]. split; [exact E5|]. split; [|exact E7].
+        unfold p_xpos in E6 at 1. lia.
+  Qed.
+
+  (* ---------- the writer's top level ---------- *)
+  Lemma ref_write_multi_shape parts file : ref_write_multi st parts a = Some file ->
+    exists r, file = s_junk st ++ RefWriter.header st (a_version a) ++ r /\
+      write_parts st a tops parts (blen (RefWriter.header st (a_version a))) None [] 0 = Some r /\ parts <> [] /\
+      contains (bs "%PDF-") (s_junk st) = false /\ no_eolb (a_version a) = true /\
+      (forall tp, In tp tops -> In (top_num tp) (flat_map mp_nums parts)).
+  Proof.
+    intros H. unfold ref_write_multi in H. unfold compressed_nums in H. rewrite Hos in H.
+    cbn [flat_map map containers app] in H. rewrite ?app_nil_r in H.
+    destruct (contains (bs "%PDF-") (s_junk st) || contains [x0d] (a_version a) || contains [x0a] (a_version a)) eqn:C1; [discriminate H|].
+    apply orb_false_iff in C1 as [C1 C1c]. apply orb_false_iff in C1 as [C1a C1b].
+    match type of H with (if ?c then _ else _) = _ => destruct c eqn:C2; [discriminate H|] end.
+    rewrite filter_all_true in H by (intro; reflexivity).
+    match type of H with (if ?c then _ else _) = _ => destruct c eqn:C3; [discriminate H|] end.
+    apply negb_false_iff in C3. apply andb_true_iff in C3 as [_ C3].
+    match type of H with match ?w with Some _ => _ | None => _ end = _ => destruct w as [r|] eqn:Hr; [|discriminate H] end.
+    destruct parts as [|p0 parts0]; [discriminate H|]. inversion H; subst file. exists r.
+    split; [reflexivity|]. split; [exact Hr|]. split; [discriminate|]. split; [exact C1a|]. split; [apply version_no_eol; assumption|].
+    intros tp Htp. rewrite forallb_forall in C3. apply mem_N_In. apply (C3 tp Htp).
+  Qed.
+
+  Lemma ostm_none (x : xmap) : flat_map (ostm_of (fun _ => None)) x = [].
+  Proof. induction x as [|[k e] x IH]; [reflexivity|]. cbn [flat_map]. rewrite IH. unfold ostm_of. cbn [fst snd]. destruct e; reflexivity. Qed.
+
+  Definition window_ok (parts : list mpart) (file : bytes) : Prop :=
+    forall lastp xs, last_part parts = Some lastp -> xs <= blen file ->
+      (9 + length (sx_mid (s_sx_eol1 (with_part st lastp true)) (s_sx_sp1 (with_part st lastp true)) xs
+                          (s_sx_sp2 (with_part st lastp true)) (s_sx_eol2 (with_part st lastp true))) <= 25)%nat.
+
+  Theorem loads_multi_mixed parts file :
+    utf8_decode (a_version a) <> None ->
+    ref_write_multi st parts a = Some file -> blen file <= u32_max ->
+    parts_ok parts (blen (RefWriter.header st (a_version a))) None [] 0 ->
+    match parts with p :: _ => 25 < p_xpos p (blen (RefWriter.header st (a_version a))) | [] => True end ->
+    window_ok parts file ->
+    exists d t, load_ext dec can file = LOk d t /\ d_version d = a_version a /\
+      (forall tp, In tp tops -> lookup (d_objects d) (fst (fst tp)) = Some (loaded_top tp)) /\
+      (forall id o, lookup (d_objects d) id = Some o -> (exists tp, In tp tops /\ fst (fst tp) = id) \/ In (fst id) xids).
+  Proof.
+    intros Hu Hw Hlen Hdom H25 Hsx.
+    destruct (ref_write_multi_shape parts file Hw) as [r [-> [Hr [Hne [Hj [Hv Hplaced]]]]]].
+    set (hdr := RefWriter.header st (a_version a)) in *.
+    assert (Hhdr : exists b r0, hdr = b :: r0) by (unfold hdr, RefWriter.header; eexists; eexists; reflexivity).
+    assert (Hinv0 : Inv parts hdr [] [] 0 []).
+    { constructor.
+      - intros n e H. discriminate H.
+      - intros n off g H. discriminate H.
+      - intros tp Htp Hn. exfalso. apply Hn. apply Hplaced. exact Htp.
+      - intro n. reflexivity.
+      - intros n e H. discriminate H.
+      - intro ext. exact I.
+      - lia.
+      - intros tp [].
+      - destruct Hhdr as [b [r0 ->]]. unfold blen. cbn [length]. lia. }
+    assert (HU : blen (hdr ++ r) <= u32_max) by (unfold blen in *; rewrite !app_length in *; lia).
+    destruct (parts_inv parts hdr [] [] 0 [] r Hdom Hinv0 Hr HU) as [cF [kF [mF [xtF [IF HF]]]]].
+    destruct (HF Hne) as [xs [x0 [t0 [cr [lastp [front [E1 [E2 [E3 [E4 [E5 [E6 [E7 E8]]]]]]]]]]]]]. subst cF. clear HF.
+    pose proof (i_chain _ _ _ _ _ _ IF []) as Hc. rewrite app_nil_r in Hc. cbn [chain_ok] in Hc.
+    destruct Hc as [Hc1 [Hc2 [Hc3 [Hc4 Hc5]]]].
+    set (buf := hdr ++ r) in *.
+    set (xm := fold_left xref_merge (map (fun s : csec => fst (snd s)) cr) x0).
+    assert (Hsorted : C07Bytes.xincr 0 (x_entries xm)) by (apply C07Bytes.fold_merge_sorted; exact E2).
+    assert (Hxg : forall n e, In (n, e) (x_entries xm) -> xget (x_entries xm) n = Some e)
+      by (intros n e Hin; apply (C07Bytes.xget_in_sorted _ 0); assumption).
+    assert (Hfe : forall n e, In (n, e) (x_entries xm) -> fe ((xs, (x0, t0)) :: cr) n = Some e).
+    { intros n e Hin. unfold fe. cbn [map fst snd]. rewrite <- xget_merge_chain. apply Hxg. exact Hin. }
+    assert (Hmax : xref_max_id xm < u32_max).
+    { unfold xref_max_id. apply N.le_lt_trans with (m := max_num (nums ++ xids)); [|lia].
+      apply max_id_le; [lia|]. intros k v Hin. destruct (i_nums _ _ _ _ _ _ IF k v (Hfe k v Hin)) as [Hk _]. apply max_num_ge. exact Hk. }
+    assert (Hread : forall n off g, In (n, XNormal off g) (x_entries xm) ->
+              exists tp, In tp (tops ++ xtF) /\ fst (fst tp) = (n, g) /\ off <= blen buf /\
+                         indirect_x buf (x_entries xm) (from off buf) None = IxOk (n, g) (loaded_top tp) None /\ no_objstm (loaded_top tp)).
+    { intros n off g Hin. destruct (i_cur _ _ _ _ _ _ IF n off g (Hfe _ _ Hin)) as [tp [pre [post [H1 [H2 [H3 H4]]]]]]; [intros _ []|].
+      exists tp. split; [exact H1|]. split; [exact H2|].
+      assert (Hok : top_ok tp) by (apply in_app_or in H1 as [H1|H1]; [apply (tops_id tp H1)|apply (i_xt _ _ _ _ _ _ IF tp H1)]).
+      assert (Hn : fst (fst (fst tp)) <= u32_max).
+      { destruct (i_nums _ _ _ _ _ _ IF n _ (Hfe _ _ Hin)) as [Hk _]. rewrite H2. cbn [fst]. pose proof (max_num_ge _ _ Hk). lia. }
+      rewrite H4, H3. split; [unfold blen; rewrite !app_length; lia|]. rewrite from_app.
+      destruct (indirect_x_top (pre ++ top_text tp ++ post) (x_entries xm) tp post Hok Hn) as [P1 P2].
+      rewrite P1, H2. split; [reflexivity|exact P2]. }
+    set (objfM := fun n g : N => match xget (x_entries xm) n with
+                                 | Some (XNormal off _) => match indirect_x buf (x_entries xm) (from off buf) None with
+                                                           | IxOk _ o _ => o
+                                                           | _ => ONull
+                                                           end
+                                 | _ => ONull
+                                 end).
+    assert (Hobj : forall n off g tp, In (n, XNormal off g) (x_entries xm) ->
+              indirect_x buf (x_entries xm) (from off buf) None = IxOk (n, g) (loaded_top tp) None -> objfM n g = loaded_top tp).
+    { intros n off g tp Hin Hi. unfold objfM. rewrite (Hxg _ _ Hin), Hi. reflexivity. }
+    assert (Hspec : forall n off g, In (n, XNormal off g) (x_entries xm) ->
+                      entry_spec dec can buf (x_entries xm) objfM (fun _ _ => None) (fun _ => None) n off g).
+    { intros n off g Hin. destruct (Hread n off g Hin) as [tp [_ [_ [H3 [H4 H5]]]]]. unfold entry_spec. split; [exact H3|].
+      rewrite (Hobj n off g tp Hin H4). split; [exact H4|]. split; [exact H5|]. destruct (loaded_top tp); try reflexivity; exact I. }
+    eexists. eexists. split.
+    - apply (load_ext_frame_chain dec can buf (x_entries xm) objfM (fun _ _ => None) (fun _ => None) (s_junk st) buf (a_version a) xs x0 t0 cr).
+      + unfold buf, hdr, RefWriter.header. rewrite <- !app_assoc. apply pdf_offset_junk. exact Hj.
+      + reflexivity.
+      + unfold buf, hdr, RefWriter.header. rewrite <- !app_assoc. apply header_any_eol; assumption.
+      + rewrite E4, startxref_text_block.
+        assert (Hfb : blen front <= blen buf) by (rewrite E4; unfold blen; rewrite app_length; lia).
+        apply get_xref_start_styled.
+        * exact E5.
+        * destruct parts as [|p0 parts0]; [contradiction|]. lia.
+        * unfold u32_max in HU. lia.
+        * apply Hsx; [exact E3|]. unfold buf, blen in *. rewrite !app_length in *. lia.
+      + lia.
+      + exact Hc2.
+      + exact E7.
+      + exact Hc4.
+      + exact Hc5.
+      + reflexivity.
+      + exact E8.
+      + exact Hmax.
+      + exact Hspec.
+    - cbn [d_version d_objects]. split; [reflexivity|].
+      rewrite ostm_none. unfold merge_object_streams. cbn [fold_left]. rewrite zero_pass_id.
+      2:{ intros id' q Hq. rewrite pos_none_fold in Hq by reflexivity. discriminate Hq. }
+      set (M := fold_left (ins objfM) (x_entries xm) []).
+      assert (Hlk : forall id, lookup M id = if hit (xget (x_entries xm)) (x_entries xm) id then Some (objfM (fst id) (snd id)) else None).
+      { intro id. unfold M. rewrite (lookup_fold_ins objfM (xget (x_entries xm)) _ [] id); [reflexivity|exact Hxg]. }
+      split.
+      + intros tp Htp. rewrite Hlk.
+        assert (Hne' : fe ((xs, (x0, t0)) :: cr) (top_num tp) <> None) by (apply (i_all _ _ _ _ _ _ IF tp Htp); intros []).
+        destruct (fe ((xs, (x0, t0)) :: cr) (top_num tp)) as [e|] eqn:Ee; [|contradiction].
+        destruct (i_nums _ _ _ _ _ _ IF _ _ Ee) as [_ [_ [off [g ->]]]].
+        assert (Hx : xget (x_entries xm) (top_num tp) = Some (XNormal off g)) by (unfold xm; rewrite xget_merge_chain; exact Ee).
+        pose proof (xget_In _ _ _ Hx) as Hin.
+        destruct (Hread _ _ _ Hin) as [tp' [H1 [H2 [_ [H4 _]]]]].
+        assert (tp' = tp).
+        { apply in_app_or in H1 as [H1|H1].
+          - apply tops_unique; [exact H1|exact Htp|unfold top_num; rewrite H2; reflexivity].
+          - exfalso. apply (nums_not_xid (top_num tp)); [apply (tops_id tp Htp)|].
+            destruct (i_xt _ _ _ _ _ _ IF tp' H1) as [_ K]. unfold top_num in K. rewrite H2 in K. exact K. }
+        subst tp'.
+        unfold hit. change (fst (fst (fst tp))) with (top_num tp). rewrite (xget_some_key _ _ _ Hin), Hx. cbn [andb].
+        assert (g = snd (fst (fst tp))) by (rewrite H2; reflexivity). subst g. rewrite N.eqb_refl.
+        change (fst (fst (fst tp))) with (top_num tp). rewrite (Hobj (top_num tp) off (snd (fst (fst tp))) tp Hin H4). reflexivity.
+      + intros id o Hl. rewrite Hlk in Hl. destruct (hit (xget (x_entries xm)) (x_entries xm) id) eqn:Eh; [|discriminate Hl].
+        unfold hit in Eh. apply andb_true_iff in Eh as [_ Eh].
+        destruct (xget (x_entries xm) (fst id)) as [[| |off g|c i]|] eqn:Ex; try discriminate Eh. apply N.eqb_eq in Eh.
+        destruct (Hread _ _ _ (xget_In _ _ _ Ex)) as [tp [H1 [H2 _]]].
+        apply in_app_or in H1 as [H1|H1].
+        * left. exists tp. split; [exact H1|]. rewrite H2. destruct id; cbn [fst snd] in *. subst. reflexivity.
+        * right. destruct (i_xt _ _ _ _ _ _ IF tp H1) as [_ K]. unfold top_num in K. rewrite H2 in K. exact K.
+  Qed.
 End Multi.
